@@ -8,6 +8,7 @@ OBJ_NAMES = ["Foo", "foo", "Bar", "BarBaz", "bar_baz", "Qux", "spec", "Spec", "m
 FIELD_NAMES = ["id", "name", "Name", "kind", "type", "items", "options", "value", "extra", "tags", "Tags", "ref"]
 SCALARS = ["string", "int64", "int32", "uint8", "float64", "float32", "bool", "any", "bytes", "uint64"]
 COMMENTS = ["a comment", "second line", "TODO", ""]
+CHAIN_OBJ_NAMES = ["CatA", "CatB", "CatC", "AliasOne", "AliasTwo", "Konst", "Choice", "ListOf", "Holder", "Level"]
 
 
 def dstr(s):
@@ -152,6 +153,8 @@ class IRGen:
 
     def type(self, pkg, depth=0):
         r = self.rng
+        if self.features.get("chain") and depth < self.max_depth and r.random() < 0.22:
+            return self.chain_type(pkg, depth)
         c = r.random()
         leaf = depth >= self.max_depth
         if leaf or c < 0.34:
@@ -176,19 +179,231 @@ class IRGen:
             return {"k": "cref", "pkg": p, "name": n, "val": gen_dyn(r)}
         return {"k": "slot", "variant": r.choice(["dataquery", "panelcfg"])}
 
+    # ---- shapes the language-chain passes care about (features["chain"])
+    def const_str(self, v=None):
+        return {"k": "scalar", "sk": "string", "val": dstr(v if v is not None else self.rng.choice(["a", "b", "c", "const", "a b", ""]))}
+
+    def odd_enum(self):
+        """enum members with empty / signed / numeric names, empty values, mismatched or non-scalar member types"""
+        r = self.rng
+        vals = []
+        for _ in range(r.randint(0, 4)):
+            c = r.random()
+            name = r.choice(["", "-1", "+5", "-x", "+", "-", "007", "12", "a", "Up", "a-b", "-12a", "99999999999999999999", "+0", "N1"])
+            if c < 0.45:
+                v = {"type": {"k": "scalar", "sk": "string"}, "name": name, "val": dstr(r.choice(["", "", "x", name]))}
+            elif c < 0.8:
+                v = {"type": {"k": "scalar", "sk": r.choice(["int64", "int64", "int32", "float64", "uint8"])}, "name": name, "val": dint(r.randint(-3, 9))}
+            elif c < 0.88:
+                v = {"type": {"k": "scalar", "sk": "string"}, "name": name, "val": r.choice([dint(3), None, dbool(True)])}
+            elif c < 0.94:
+                v = {"type": {"k": "scalar", "sk": "bool"}, "name": name, "val": dbool(True)}
+            else:
+                v = {"type": self.ref("alpha"), "name": name or "m", "val": dstr("x")}
+            vals.append(v)
+        t = {"k": "enum", "values": vals}
+        if r.random() < 0.3:
+            t["def"] = gen_dyn(r)
+        if r.random() < 0.3:
+            t["null"] = True
+        if r.random() < 0.15:
+            t["hints"] = {"custom_hint": dstr("v")}
+        return t
+
+    def const_scalar(self):
+        r = self.rng
+        kind = r.choice(["string", "string", "int64", "int64", "float64", "bool", "uint8", "bytes"])
+        t = {"k": "scalar", "sk": kind}
+        if kind == "string":
+            t["val"] = dstr(r.choice(["a", "b", "c", "", "x y"]))
+        elif kind in ("int64", "uint8"):
+            t["val"] = dint(r.randint(0, 3), kind)
+        elif kind == "float64":
+            t["val"] = dfloat(r.choice(["1.5", "100", "0.25"]))
+        elif kind == "bool":
+            t["val"] = dbool(r.random() < 0.5)
+        else:
+            t["val"] = r.choice([dstr("raw"), dint(1)])
+        if r.random() < 0.2:
+            t["null"] = True
+        return t
+
+    def refs_named(self, pkg, names):
+        return [{"k": "ref", "pkg": pkg, "name": n} for n in names]
+
+    def family_refs(self, pkg):
+        """references to the struct family (objects sharing a constant discriminator field) of `pkg`"""
+        r = self.rng
+        fam = [n for (p, n) in self.universe if p == pkg and n.startswith("Cat")]
+        if not fam:
+            return None
+        names = [r.choice(fam) for _ in range(r.randint(1, 3))] if r.random() < 0.3 else r.sample(fam, r.randint(1, len(fam)))
+        bs = self.refs_named(pkg, names)
+        if r.random() < 0.15:
+            bs.append(self.ref(pkg))
+        for b in bs:
+            if r.random() < 0.1:
+                b["null"] = True
+        return bs
+
+    def anon_struct_branch(self, pkg, depth):
+        r = self.rng
+        t = self.struct(pkg, depth)
+        if r.random() < 0.6:
+            t["fields"].insert(r.randint(0, len(t["fields"])),
+                               {"name": r.choice(["kind", "type", "my-kind"]), "type": r.choice([self.const_str(), self.const_scalar()]), "req": True})
+        return t
+
+    def chain_disj(self, pkg, depth):
+        r = self.rng
+        c = r.random()
+        if c < 0.015:
+            branches = [{"k": "scalar", "sk": "null"}, {"k": "scalar", "sk": "null"}]
+        elif c < 0.16:
+            branches = [{"k": "scalar", "sk": "null"}, self.type(pkg, depth + 1)]
+            if r.random() < 0.3:
+                branches.append(self.type(pkg, depth + 1))
+        elif c < 0.30:       # constants, possibly through references / nested disjunctions / enums
+            branches = []
+            for _ in range(r.randint(1, 4)):
+                d = r.random()
+                if d < 0.5:
+                    branches.append(self.const_scalar() if r.random() < 0.4 else self.const_str())
+                elif d < 0.75:
+                    branches.append(self.ref(pkg))
+                elif d < 0.85:
+                    branches.append(self.enum() if r.random() < 0.7 else self.odd_enum())
+                else:
+                    branches.append({"k": "disj", "branches": [self.const_str() for _ in range(r.randint(0, 2))]})
+        elif c < 0.40:       # constant + plain scalar of (maybe) the same kind
+            k = r.choice(["string", "int64", "bool"])
+            a = {"k": "scalar", "sk": k, "val": dstr("dflt") if k == "string" else (dint(7) if k == "int64" else dbool(True))}
+            b = self.scalar(k if r.random() < 0.8 else "string", concrete=r.random() < 0.15)
+            branches = [a, b] if r.random() < 0.5 else [b, a]
+        elif c < 0.62:       # references to a struct family
+            branches = self.family_refs(pkg) or [self.ref(pkg) for _ in range(r.randint(0, 3))]
+        elif c < 0.76:       # anonymous structs
+            branches = [self.anon_struct_branch(pkg, depth + 1) if r.random() < 0.7 else self.type(pkg, depth + 1)
+                        for _ in range(r.randint(1, 3))]
+        elif c < 0.88:       # same-kind scalars, scalars through references, duplicates
+            k = r.choice(SCALARS)
+            branches = [self.scalar(k) if r.random() < 0.7 else self.ref(pkg) for _ in range(r.randint(1, 3))]
+            if r.random() < 0.3:
+                branches.append(dict(branches[0]))
+        elif c < 0.94:
+            branches = []
+        else:                # nested
+            branches = [self.chain_disj(pkg, depth + 1) if depth + 1 < self.max_depth else self.scalar() for _ in range(r.randint(1, 2))]
+            branches.append(self.type(pkg, depth + 1))
+        t = {"k": "disj", "branches": branches}
+        d = r.random()
+        if d < 0.3:
+            t["disc"] = r.choice(["kind", "type", "absent"])
+        if d < 0.2 or d > 0.92:
+            t["mapping"] = {r.choice(["a", "b", "c"]): b.get("name", "X") for b in branches if b.get("k") == "ref"}
+        if branches and all(b.get("k") == "ref" for b in branches) and r.random() < 0.45:
+            t["disc"] = r.choice(["kind", "kind", "type"])
+            t["mapping"] = {"abc"[i % 3] if r.random() < 0.9 else "a": b["name"] for i, b in enumerate(branches)}
+        if r.random() < 0.2:
+            t["def"] = gen_dyn(r)
+        return self.attrs(t, allow_default=False)
+
+    def chain_type(self, pkg, depth):
+        r = self.rng
+        c = r.random()
+        if c < 0.55:
+            return self.chain_disj(pkg, depth)
+        if c < 0.70:
+            return self.odd_enum()
+        if c < 0.80:     # map whose index is an anonymous struct / enum
+            return self.attrs({"k": "map", "i": r.choice([self.struct(pkg, depth + 1), self.enum()]), "v": self.type(pkg, depth + 1)})
+        if c < 0.90 and self.universe:
+            p, n = r.choice(self.universe)
+            return {"k": "cref", "pkg": p, "name": n, "val": r.choice([dstr("a"), dstr("b"), dint(1), None])}
+        t = self.struct(pkg, depth)
+        if r.random() < 0.5:
+            t["hints"] = {"implements_variant": r.choice([dstr("dataquery"), dstr("panelcfg"), dint(1)])}
+        if r.random() < 0.3:
+            t["def"] = gen_dyn(r)
+        return t
+
+    def chain_objects(self, pkg, names):
+        """extra objects: a struct family with a shared constant field, aliases, constants, top-level disjunctions"""
+        r = self.rng
+        objs = []
+        fam = [n for n in names if n.startswith("Cat")]
+        amb = r.random() < 0.12      # two shared constant fields: map-order dependent inference
+        for i, n in enumerate(fam):
+            fields = []
+            c = r.random()
+            disc = r.choice(["kind", "kind", "type"]) if i == 0 else self._fam_disc
+            self._fam_disc = disc
+            if c < 0.8:
+                fields.append({"name": disc, "type": self.const_str("abc"[i % 3] if r.random() < 0.85 else "a"), "req": True})
+            elif c < 0.88:
+                fields.append({"name": disc, "type": {"k": "cref", "pkg": pkg, "name": "Kind", "val": r.choice([dstr("abc"[i % 3]), dint(i)])}, "req": True})
+            elif c < 0.94:
+                fields.append({"name": disc, "type": r.choice([self.scalar("string", concrete=False), {"k": "scalar", "sk": "int64", "val": dint(i)}]), "req": True})
+            if amb:
+                fields.append({"name": "extra", "type": self.const_str("e%d" % i), "req": True})
+            for fn in r.sample(["id", "name", "value", "items"], r.randint(0, 2)):
+                fields.append({"name": fn, "type": self.type(pkg, 2), "req": r.random() < 0.5})
+            if r.random() < 0.3:
+                r.shuffle(fields)
+            objs.append({"name": n, "type": {"k": "struct", "fields": fields}})
+        for n in names:
+            if n.startswith("Cat"):
+                continue
+            c = r.random()
+            if c < 0.25:      # alias, possibly of a struct / array / itself / another alias
+                t = {"k": "ref", "pkg": pkg, "name": r.choice(names + ["Foo", "Bar"])}
+                if r.random() < 0.3:
+                    t["hints"] = {"implements_variant": r.choice([dstr("dataquery"), dstr("panelcfg"), dint(2)])}
+                if r.random() < 0.2:
+                    t["null"] = True
+            elif c < 0.40:
+                t = self.const_scalar()
+            elif c < 0.55:
+                t = self.chain_disj(pkg, 0)
+            elif c < 0.65:
+                t = {"k": "array", "v": self.type(pkg, 1)}
+            elif c < 0.75:
+                t = self.odd_enum() if r.random() < 0.5 else self.enum()
+            else:             # struct whose fields point at the aliases / family
+                fields = [{"name": fn, "type": {"k": "ref", "pkg": pkg, "name": r.choice(names), "hints": {"h": dstr("v")}} if r.random() < 0.5 else self.type(pkg, 1),
+                           "req": r.random() < 0.5, "comments": ["field comment"]} for fn in r.sample(FIELD_NAMES, r.randint(1, 3))]
+                t = {"k": "struct", "fields": fields}
+            o = {"name": n, "type": t}
+            if r.random() < 0.4:
+                o["comments"] = ["object comment"]
+            objs.append(o)
+        return objs
+
     # ---- schemas
     def schemas(self):
         r = self.rng
         npk = r.choice([1, 1, 2, 2, 3])
         pkgs = r.sample(PKGS, npk)
         plan = []
+        chain = self.features.get("chain")
+        extra = {}
+        if chain and r.random() < 0.25:
+            pkgs = (pkgs + ["common"]) if r.random() < 0.5 else (["common"] + pkgs)
         for p in pkgs:
             names = r.sample(OBJ_NAMES, r.randint(1, 6))
+            if p == "common" and r.random() < 0.9:
+                names.append("DataQuery")
+            if chain:
+                extra[p] = r.sample(CHAIN_OBJ_NAMES, r.randint(0, 6))
+                r.shuffle(extra[p])
             plan.append((p, names))
-            self.universe += [(p, n) for n in names]
+            self.universe += [(p, n) for n in names + extra.get(p, [])]
         out = []
         for p, names in plan:
             objs = []
+            if chain and r.random() < 0.5:
+                objs += self.chain_objects(p, extra[p])
+                extra[p] = []
             for n in names:
                 c = r.random()
                 if c < 0.5:
@@ -202,9 +417,14 @@ class IRGen:
                 else:
                     t = self.type(p, 0)
                 o = {"name": n, "type": t}
+                if n == "DataQuery" and r.random() < 0.85:
+                    o["type"] = {"k": "struct", "fields": [{"name": fn, "type": self.scalar(), "req": True}
+                                                           for fn in r.sample(["id", "name", "kind"], r.randint(0, 2))]}
                 if r.random() < 0.3:
                     o["comments"] = [r.choice(COMMENTS) for _ in range(r.randint(1, 2))]
                 objs.append(o)
+            if chain:
+                objs += self.chain_objects(p, extra[p])
             s = {"pkg": p, "meta": {}, "entry": "", "objects": objs}
             if r.random() < 0.2:
                 s["meta"] = {"kind": r.choice(["core", "composable"]), "variant": r.choice(["", "dataquery", "panelcfg"]), "id": r.choice(["", "ident", "Foo"])}
